@@ -108,7 +108,7 @@ func NewTimeBucketInfo(tf utils.Timeframe, path, description string, year int16,
 		f.recordLength = int32(AlignedSize(f.getFieldRecordLength())) + epochLenBytes // add an 8-byte epoch field
 	} else if f.recordType == VARIABLE {
 		f.recordLength = 24 // Length of the indirect data pointer {index, offset, len}
-		f.variableRecordLength = 0
+		f.variableRecordLength = f.computeVariableRecordLength()
 	}
 	return f
 }
@@ -225,14 +225,20 @@ func (f *TimeBucketInfo) GetRecordLength() int32 {
 // GetVariableRecordLength returns the length of a single record for a variable
 // length TimeBucketInfo file.
 func (f *TimeBucketInfo) GetVariableRecordLength() int32 {
-	const intervalTicksLenBytes = 4
 	f.once.Do(f.initFromFile)
 
+	// the length is set when the info is created or loaded; it is never stored here, because
+	// concurrent requests share the TimeBucketInfo of a year file
 	if f.recordType == VARIABLE && f.variableRecordLength == 0 {
-		// Variable records use the raw element sizes plus a 4-byte trailer for interval ticks
-		f.variableRecordLength = int32(f.getFieldRecordLength()) + intervalTicksLenBytes
+		return f.computeVariableRecordLength()
 	}
 	return f.variableRecordLength
+}
+
+// computeVariableRecordLength: variable records use the raw element sizes plus a 4-byte trailer for interval ticks.
+func (f *TimeBucketInfo) computeVariableRecordLength() int32 {
+	const intervalTicksLenBytes = 4
+	return int32(f.getFieldRecordLength()) + intervalTicksLenBytes
 }
 
 // GetRecordType returns the type of the file described by the TimeBucketInfo
@@ -327,8 +333,14 @@ func (f *TimeBucketInfo) readHeader(path string) (err error) {
 func (f *TimeBucketInfo) load(hp *Header, path string) {
 	f.version = hp.Version
 	f.description = string(bytes.Trim(hp.Description[:], "\x00"))
-	f.Year = int16(hp.Year)
-	f.Path = filepath.Clean(path)
+	// Year and Path are exported fields that other requests read without going through the lazy load
+	// (the catalog sets them from the file name): do not write them again with the value they have
+	if f.Year != int16(hp.Year) {
+		f.Year = int16(hp.Year)
+	}
+	if cleanPath := filepath.Clean(path); f.Path != cleanPath {
+		f.Path = cleanPath
+	}
 	f.IsRead = true
 	f.timeframe = time.Duration(hp.Timeframe)
 	f.nElements = int32(hp.NElements)
@@ -340,6 +352,15 @@ func (f *TimeBucketInfo) load(hp *Header, path string) {
 		baseName := string(bytes.Trim(hp.ElementNames[i][:], "\x00"))
 		f.elementNames = append(f.elementNames, baseName)
 		f.elementTypes = append(f.elementTypes, EnumElementType(hp.ElementTypes[i]))
+	}
+	if f.recordType == VARIABLE {
+		// (not computeVariableRecordLength: load runs inside the sync.Once the getters wait for)
+		const intervalTicksLenBytes = 4
+		fieldRecordLength := 0
+		for _, elType := range f.elementTypes {
+			fieldRecordLength += elType.Size()
+		}
+		f.variableRecordLength = int32(fieldRecordLength) + intervalTicksLenBytes
 	}
 }
 
